@@ -128,9 +128,10 @@ CHECKS.update({
  'C20': dict(level='other', ref='DESIGN.md §7 C20, §10',
    text='Proved (exact polynomial identities over complex indeterminates on the REAL has_rank_hierarchical_method / is_ABC_completely_entangled_subspace, shapes (dimA,dimB,N,r,k) up to (3,3,3,2,1), (2,2,2,1,3), tripartite up to (2,2,3), k<=2 (3 thorough)): the matrix handed to LU is rows.rows^dagger; '
         'the row of a combination M = sum c_i A_i is a weighted sum of the rows with non-zero constant weights read off the code; the row of a generator of rank <= r (resp. a product vector) vanishes identically; hence a subspace containing a low-rank element / product vector makes the Gram matrix singular '
-        'and the certificate cannot be issued in exact arithmetic. Bounded: get_matrix_orthogonal_basis on 9 generator classes x dims 2..5 (kind label, structure, Gram = c I, span equality, complement, dimension count); planted instances through the floating-point LU (r=2,3; k=1..3; real / complex); '
+        'and the certificate cannot be issued in exact arithmetic. Also proved, for get_matrix_orthogonal_basis with its two SVD/eigh-based vector routines replaced by their assumed contracts (fresh symbolic orthonormal rows), all 7 structure classes, m,n<=3 (4 thorough): the structure label, the coordinates reproduce every generator (block embedding for R_c/R_cT), the chart coordinates->matrices is an isometry up to one constant c>0, its images lie in the ambient structured space, and the number of coordinates equals the ambient dimension. '
+        'Bounded: get_matrix_orthogonal_basis end-to-end on 9 generator classes x dims 2..5 (kind label, structure, Gram = c I, span equality, complement, dimension count); planted instances through the floating-point LU (r=2,3; k=1..3; real / complex); '
         'detect_real_matrix_subspace_rank_one on planted rank-one elements; every point of get_matrix_numerical_range attains the support function (sizes 2..8); the (anti)symmetric projector tables (enumerated).',
-   note=EXPL_NOTE + ' Meta-steps of the soundness argument (trusted): dependent rows => singular Gram matrix => a zero pivot in exact LU; floats are reals. The decomposition, the real rank-one detector (eigenvalue bound + scalar minimisation) and the numerical range are bounded only.',
+   note=EXPL_NOTE + ' Meta-steps of the soundness argument (trusted): dependent rows => singular Gram matrix => a zero pivot in exact LU; floats are reals. Assumed contracts in the chart proofs: reduce_vector_space returns orthonormal rows spanning the row space of its argument, get_vector_orthogonal_basis an orthonormal basis of the complement (LAPACK; exercised end-to-end by the bounded job); the float-threshold classification of the input is decided generically (an expression is below zero_eps iff it vanishes identically) and listed per obligation. The decomposition, the real rank-one detector (eigenvalue bound + scalar minimisation) and the numerical range are bounded only.',
    tech=TECH + 'recorder stubs on opt_einsum.contract / scipy.linalg.lu to obtain the rows the real code builds; run-time contract evaluation on seeded structured / planted instances as bounded stand-in'),
 })
 PENDING = 'contracts for this property are not built yet in this revision (work in progress, see DESIGN.md §7/§10)'
